@@ -46,8 +46,11 @@ CODECS = ['UTF-8', 'utf8', 'UTF-7', 'UTF-16', 'UTF-16LE', 'UTF-32', 'ASCII', 'us
           'CHARSET', 'foobar', '', ' ', 'x' * 300, 'UTF-8 ', 'UTF-8;', 'UTF-8\\n', 'utf\u20138', '\u00fctf-8', 'UTF-8\x00', '../../etc/passwd', '.', '..', '-', '_', '8bit', 'none', 'None',
           'ISO-8859-17', 'ISO-8859-0', 'ISO-8859-' + '1' * 50, 'CP0', 'CP' + '9' * 30, 'latin_1', 'l1', 'iso-ir-6', 'csASCII', 'IBM367']
 
+OWN_CODECS = ['KOI8-RU', 'VISCII', 'GEORGIAN-PS', 'KOI8-T', 'EUC-TW', 'TCVN', 'TCVN5712-1', 'CP1258', 'UTF-7', 'UTF-16', 'UTF-32', 'CP037', 'HZ', 'ISO-2022-JP', 'idna', 'punycode', 'unicode_escape',
+              'raw_unicode_escape', 'utf_8_sig', 'koi8-ru', 'viscii', 'georgian-ps', 'Georgian-PS', 'koi8_ru']
+
 def content_type(rng):
-    cs = rng.choice(CODECS)
+    cs = rng.choice(OWN_CODECS) if rng.random() < 0.3 else rng.choice(CODECS)
     return rng.choice(['text/plain; charset={0}', 'text/plain; charset={0}', 'text/plain; charset={0}', 'charset={0}', 'text/plain;charset={0}', 'text/plain; charset="{0}"',
                        'text/html; charset={0}', 'text/plain; charset={0}; format=flowed', 'text/plain', '', 'text/plain; charset=', 'text/plain; charset={0} charset=UTF-8',
                        'TEXT/PLAIN; CHARSET={0}', 'text/plain; charset={0}\\n']).format(cs)
@@ -70,7 +73,8 @@ LANGS = ['pl', 'pl_PL', 'pl_PL.UTF-8', 'pl_PL.UTF-8@euro', 'pl@euro', 'sr@latin'
          'x-klingon', 'tlh', 'art-lojban', 'und', 'mul', 'zxx', 'qaa', 'aa', 'zu', 'p\u013a', '\u0440\u0443', 'pl\x00', 'p' * 300, 'pl_' + 'P' * 300, 'pl.' + 'x' * 300, 'pl@' + 'x' * 300, 'LL', 'LANGUAGE',
          'None', 'pl_None']
 
-ADDRS = ['Jakub Wilk <jwilk@jwilk.net>', 'jwilk@jwilk.net', '<jwilk@jwilk.net>', 'FULL NAME <EMAIL@ADDRESS>', 'EMAIL@ADDRESS', 'LANGUAGE <LL@li.org>', 'Polish <pl@li.org>', 'A <a@b>',
+ADDRS = ['(' * 1200, 'A <a@b.c> ' + '(' * 700, '(' * 700 + ')' * 700, 'a@b.c (' + '(x)' * 700, '<' * 1200, '"' * 1201, '[' * 1200, 'a@[' + '[' * 900, '\\\\' * 900, 'a@' + 'b.' * 700 + 'c', '(\\\\' * 700,
+         'Jakub Wilk <jwilk@jwilk.net>', 'jwilk@jwilk.net', '<jwilk@jwilk.net>', 'FULL NAME <EMAIL@ADDRESS>', 'EMAIL@ADDRESS', 'LANGUAGE <LL@li.org>', 'Polish <pl@li.org>', 'A <a@b>',
          'A <a@localhost>', 'A <a@example.com>', 'A <a@example.net>', 'A <a@test>', 'A <a@foo.invalid>', 'A <a@foo.local>', 'A <a@foo.onion>', 'A <a@[127.0.0.1]>', 'A <a@127.0.0.1>',
          'A <a@b.>', 'A <a@.b>', 'A <a@b..c>', 'A <@b.c>', 'A <a@>', 'A <@>', 'A <>', '<>', '@', 'A', '', ' ', 'A <a b@c.d>', '"A B" <a@c.d>', 'A (comment) <a@c.d>', 'a@c.d (A)', 'A <a@c.d>, B <b@c.d>',
          'A <a@c.d> B', 'A <<a@c.d>>', 'A <a@c.d', 'A a@c.d>', 'A <a@\u00e4.example>', 'A <\u00e4@example.org>', 'A <a@xn--4ca.example>', 'A <a@EXAMPLE.ORG>', 'A <A@Example.Org>',
@@ -117,11 +121,11 @@ BRACE = ['{}', '{0}', '{1}', '{0} {1}', '{1} {0}', '{} {}', '{} {0}', '{0} {}', 
 PERL = ['{a}', '{a} {b}', '{b} {a}', '{a} {a}', '{', '}', '{{', '}}', '{}', '{a', 'a}', '{1}', '{1a}', '{a1}', '{_}', '{_a}', '{a_b}', '{a b}', '{a-b}', '{a.b}', '{ a}', '{a }', '{\u00e4}', '{\u00b2}',
         '{\u0661}', '{a\u0661}', '{a{b}}', '{{a}}', '{a}{', '}{a}', '{a}' * 300, '{' + 'a' * 4000 + '}', '{' * 4000, '{a\n}', '{\x00}', '{A}', '{aA0_}']
 
-XMLS = ['<a>x</a>', '<a>', '</a>', '<a></b>', '<a/>', '<a', 'a>', '&amp;', '&foo;', '&', '&#0;', '&#x110000;', '&#65;', '<!-- x -->', '<!-- -- -->', '<![CDATA[x]]>', ']]>', '<?xml version="1.0"?>', '<?pi?>',
+XMLS = ['+2AA-', '<a>+2AA-</a>', '<a>+2ADcAA-</a>', '\\udc80', '<a b="+2AA-"/>', '<a>&#xD800;</a>', '<a>\x85</a>', '<a>\u2028</a>', '<a>x</a>', '<a>', '</a>', '<a></b>', '<a/>', '<a', 'a>', '&amp;', '&foo;', '&', '&#0;', '&#x110000;', '&#65;', '<!-- x -->', '<!-- -- -->', '<![CDATA[x]]>', ']]>', '<?xml version="1.0"?>', '<?pi?>',
         '<!DOCTYPE a [<!ENTITY e "x">]>', '<a b="c"/>', '<a b=c/>', '<a b="c" b="d"/>', '<a:b/>', '<xml:a/>', '<\u00e4/>', '<1/>', '<a>' * 3000 + '</a>' * 3000, '<a>' * 3000, '<a x="' + 'y' * 5000 + '"/>',
         '\x00', '\x0b', '\ud800', '\ufffe', 'x' * 5000, '<a>&lt;</a>', '<a>\x1b</a>']
 
-TEXTS = ['', ' ', '\n', '\n\n', 'a', 'a\n', '\na', '\na\n', 'a\r\n', 'a\r', '\ta', 'a\t', '\x00', 'a\x00b', '\x07', '\x1b[31mred', '\x7f', '\x9b31m', '\u202e', '\u200b', '\ufeff', '\ufffd', '\ufffe', '\uffff',
+TEXTS = ['+2AA-', '+2AA', '+AGEAYgBj-', '+-', '+', 'xn--a', '.xn--a', 'a.xn--', '\\u00e4', '\\ud800', '\\N{BELL}', '\\x', '\\U0010ffff', '\\U00110000', '~{', '~{ab', '\x1b$B', '\x1b$B!!', '\x0e', '', ' ', '\n', '\n\n', 'a', 'a\n', '\na', '\na\n', 'a\r\n', 'a\r', '\ta', 'a\t', '\x00', 'a\x00b', '\x07', '\x1b[31mred', '\x7f', '\x9b31m', '\u202e', '\u200b', '\ufeff', '\ufffd', '\ufffe', '\uffff',
          '\ud800', '\udc80', 'a\u00bfb', '\u00bf', '<<<<<<< HEAD', '=======', '>>>>>>> x', '#-#-#-#-#  a.po  #-#-#-#-#', '#-#-#-#-#  a.po  #-#-#-#-#\nx', 'x' * 20000, '\n' * 2000, '\\', '\\\\', '"', '\\"',
          '\U0001f600', '\U0010ffff', 'a\u0301', '\u0130', '\u00df', 'SS', '\u017f', '\ufb01']
 
@@ -299,11 +303,41 @@ def gen_po_text(rng):
         out = gen_message(rng) + out
     return out, ('.pot' if template else '.po')
 
+import re as _re
+_CHARSET_RE = _re.compile(r'charset=([^\s;"\\]+)')
+
+# codecs whose byte form of ASCII text is not ASCII (or not even text): a header declared in one of them can only be read if the
+# whole file is in it — or, more interestingly, if only the part after the header is
+WIDE_CODECS = ['utf-16', 'utf-16le', 'utf-16be', 'utf-32', 'utf-7', 'cp037', 'cp500', 'cp1140', 'utf-8-sig', 'hz', 'iso2022_jp', 'iso2022_kr',
+               'unicode_escape', 'raw_unicode_escape', 'punycode', 'idna', 'koi8-ru', 'viscii', 'georgian-ps', 'koi8-t', 'euc-tw', 'tcvn', 'big5hkscs', 'shift_jis', 'gb18030']
+
+def encode_declared(rng, text):
+    """the text in the charset its own header declares, when Python (or the harness's copy of the tool's codecs) can encode it"""
+    m = _CHARSET_RE.search(text)
+    if not m:
+        return None
+    try:
+        return text.encode(m.group(1), 'replace')
+    except Exception:
+        return None
+
 def encode_po(rng, text):
     """bytes of a PO text: mostly UTF-8, sometimes the declared charset or a wrong one, sometimes byte-mutated"""
     r = rng.random()
-    if r < 0.75:
+    if r < 0.62:
         b = text.encode('utf-8', 'surrogatepass')
+    elif r < 0.72:
+        b = encode_declared(rng, text)
+        if b is None:
+            b = text.encode('utf-8', 'surrogatepass')
+    elif r < 0.75:
+        # ASCII header, body in a wide / stateful codec (what a careless conversion produces)
+        cut = text.find('\n\n')
+        enc = rng.choice(WIDE_CODECS)
+        try:
+            b = text[:cut + 2].encode('utf-8', 'replace') + text[cut + 2:].encode(enc, 'replace')
+        except Exception:
+            b = text.encode('utf-8', 'surrogatepass')
     elif r < 0.85:
         b = text.encode('iso-8859-2', 'replace')
     elif r < 0.9:
@@ -442,3 +476,41 @@ def _mo_n(n):
 
 def _mo_long(n):
     return _mo_simple([(b'', _hdr_bytes()), (b'a' * n, b'b' * n + b'\n'), (b'c\x00cs', b'\x00'.join([b'd' * n] * 3))])
+
+# ----------------------------------------------------------------------------- one string in every slot
+
+def slot_files(pump):
+    """the string `pump` placed in every sub-language slot of a PO file and of an MO file → [(slot, bytes, extension)]"""
+    res = []
+    for flag in ('c-format', 'python-format', 'python-brace-format', 'perl-brace-format'):
+        res.append(('msgid:' + flag, _wrap(_msg(flag, pump, 'x')), '.po'))
+        res.append(('msgstr:' + flag, _wrap(_msg(flag, 'x', pump)), '.po'))
+    res.append(('msgid', _wrap(_msg('', pump, 'x')), '.po'))
+    res.append(('msgstr', _wrap(_msg('', 'x', pump)), '.po'))
+    res.append(('msgctxt', _wrap('msgctxt ' + po_q(pump) + '\n' + _msg('', 'a', 'b')), '.po'))
+    res.append(('flags', _wrap(_msg(pump.replace('\n', ' '), 'a', 'b')), '.po'))
+    res.append(('range-flag', _wrap(_msg('range: ' + pump.replace('\n', ' '), 'a', 'b')), '.po'))
+    res.append(('extracted-comment', _wrap('#. ' + pump.replace('\n', ' ') + '\n' + _msg('', '<a>x</a>', '<a>y</a>')), '.po'))
+    res.append(('translator-comment', ('# ' + pump.replace('\n', '\n# ') + '\n').encode('utf-8', 'surrogatepass') + _wrap(_msg('', 'a', 'b')), '.po'))
+    res.append(('xml-msgstr', _wrap('#. type: Content of: <para>\n' + _msg('', '<a>x</a>', pump)), '.po'))
+    res.append(('previous-msgid', _wrap('#| msgid ' + po_q(pump) + '\n' + _msg('fuzzy', 'a', 'b')), '.po'))
+    res.append(('raw-line', _wrap(pump + '\n' + _msg('', 'a', 'b')), '.po'))
+    res.append(('plural-expression', _wrap(_msg('', 'a', 'b'), plural_forms='nplurals=2; plural=' + pump.replace(';', ',').replace('\n', ' ') + ';'), '.po'))
+    res.append(('plural-forms', _wrap(_msg('', 'a', 'b'), plural_forms=pump.replace('\n', ' ')), '.po'))
+    good = dict(CAT.GOOD_HEADER)
+    for field in ('Project-Id-Version', 'Report-Msgid-Bugs-To', 'POT-Creation-Date', 'PO-Revision-Date', 'Last-Translator', 'Language-Team', 'Language',
+                  'MIME-Version', 'Content-Type', 'Content-Transfer-Encoding'):
+        old = ('%s: %s' % (field, good[field])).encode()
+        new = ('%s: %s' % (field, pump.replace('\n', ' '))).encode('utf-8', 'surrogatepass')
+        res.append(('header:' + field, _wrap(_msg('', 'a', 'b')).replace(old.replace(b'"', b'\\"'), new.replace(b'\\', b'\\\\').replace(b'"', b'\\"')), '.po'))
+    res.append(('header:charset', _wrap(_msg('', 'a', 'b')).replace(b'charset=UTF-8', b'charset=' + pump.replace('\n', ' ').replace(' ', '_').encode('utf-8', 'surrogatepass').replace(b'\\', b'\\\\').replace(b'"', b'\\"')), '.po'))
+    res.append(('header:X-Poedit-Language', _wrap(_msg('', 'a', 'b'), extra_fields='X-Poedit-Language: ' + pump.replace('\n', ' ') + '\n'), '.po'))
+    res.append(('header:unknown-field', _wrap(_msg('', 'a', 'b'), extra_fields=pump.replace('\n', ' ') + ': x\n'), '.po'))
+    try:
+        p8 = pump.encode('utf-8', 'surrogatepass').replace(b'\x00', b'')
+        res.append(('mo:msgid', _mo_simple([(b'', _hdr_bytes()), (p8 or b'x', b'y')]), '.mo'))
+        res.append(('mo:msgstr', _mo_simple([(b'', _hdr_bytes()), (b'x', p8)]), '.mo'))
+        res.append(('mo:header', _mo_simple([(b'', _hdr_bytes() + b'X-Foo: ' + p8.replace(b'\n', b' ') + b'\n')]), '.mo'))
+    except Exception:
+        pass
+    return res
